@@ -91,6 +91,7 @@ func runRelay(t *testing.T, w *vt.Writer, s *c19Scenario) {
 	produced := map[string]int{"A": 0, "B": 0}
 	fwdOff := map[string]int{"A": 0, "B": 0} // bytes of side s seen written to Other(s)
 	var mu sync.Mutex
+	var torndown int32 // set when the harness tears a stuck relay down: what happens then is not part of the scenario
 	other := func(s string) string {
 		if s == "A" {
 			return "B"
@@ -102,7 +103,7 @@ func runRelay(t *testing.T, w *vt.Writer, s *c19Scenario) {
 	for x, l := range map[string]*wire.Link{"A": la, "B": lb} {
 		x, l := x, l
 		l.Hook = func(c *wire.Conn, what string, data []byte) {
-			if c != l.A {
+			if c != l.A || atomic.LoadInt32(&torndown) == 1 {
 				return
 			}
 			switch what {
@@ -136,9 +137,17 @@ func runRelay(t *testing.T, w *vt.Writer, s *c19Scenario) {
 		done <- err
 	}()
 
+	// a copier is at rest when it is parked in Read on its source, or blocked in Write on its destination (back-pressure)
 	quiet := func() bool {
-		return la.WaitFor(c19Wait, func(a, _ wire.State) bool { return (a.Parked || a.Closed) }) == nil &&
-			lb.WaitFor(c19Wait, func(a, _ wire.State) bool { return (a.Parked || a.Closed) }) == nil
+		deadline := time.Now().Add(c19Wait)
+		for time.Now().Before(deadline) {
+			a, b := la.A.State(), lb.A.State()
+			if (a.Parked || a.Closed || b.BlockedWriters > 0) && (b.Parked || b.Closed || a.BlockedWriters > 0) {
+				return true
+			}
+			time.Sleep(200 * time.Microsecond)
+		}
+		return false
 	}
 	returned := false
 	for _, st := range s.Steps {
@@ -169,6 +178,12 @@ func runRelay(t *testing.T, w *vt.Writer, s *c19Scenario) {
 		case "wfail":
 			w.Emit(vt.Ev{"event": "WFail", "s": st.S})
 			c.FailWrites(syscall.EPIPE)
+		case "wstall":
+			w.Emit(vt.Ev{"event": "WStall", "s": st.S})
+			c.StallWrites(true)
+		case "drain":
+			w.Emit(vt.Ev{"event": "Drain", "s": st.S})
+			c.StallWrites(false)
 		}
 	}
 	// outcome: returned, or blocked for good (both copiers parked/finished with nothing deliverable)
@@ -187,8 +202,9 @@ func runRelay(t *testing.T, w *vt.Writer, s *c19Scenario) {
 	if returned {
 		w.Emit(vt.Ev{"event": "Returned", "closedA": closedAtReturn[0], "closedB": closedAtReturn[1]})
 	} else {
-		w.Emit(vt.Ev{"event": "Stuck"})
+		w.Emit(vt.Ev{"event": "Stuck", "blockedA": la.A.State().BlockedWriters > 0, "blockedB": lb.A.State().BlockedWriters > 0})
 		// unblock the goroutines so that they do not leak into the next scenario
+		atomic.StoreInt32(&torndown, 1)
 		la.A.Close()
 		lb.A.Close()
 		<-done
